@@ -4,6 +4,7 @@ import PystogVerif.Model.Rebin
 import PystogVerif.Model.Writer
 import PystogVerif.Model.Workflow
 import PystogVerif.Model.Config
+import PystogVerif.Model.Fortran
 /-! Driver entry points of the hand-written models (Float reading) -/
 
 def flag (x : Float) : Bool := x != 0.0
@@ -89,4 +90,8 @@ def Model.dispatch (name : String) (a : Array Arg) : Except String (List (List F
         pure [[0.0], [Float.ofNat s.rsf, s.rmin, s.rmax, s.rdelta, if s.lowq then 1.0 else 0.0, if s.lorch then 1.0 else 0.0, s.bcoh, s.btot],
               encPv s.density, encPv s.cutoff, oenc s.qmin, oenc s.qmax, (match s.stem with | some n => [Float.ofNat n] | Option.none => [0.0]),
               steps, files, Config.createDomain s.rmin s.rmax s.rdelta]
+  | "Model.stogBit" => do
+      let r := Fortran.stogBit (← Arg.getVec a 0) (← Arg.getVec a 1) (← Arg.getScalar a 2).toUInt64.toNat (← Arg.getScalar a 3)
+        (← Arg.getScalar a 4) (flag (← Arg.getScalar a 5))
+      pure [r.1, r.2]
   | _ => throw "unknown-entry"
